@@ -134,8 +134,16 @@ type runResult struct {
 }
 
 func (c *FnCtx) script(o *Obligation, extra []Term) string {
+	return c.scriptAt(o, extra, nil)
+}
+
+func (c *FnCtx) scriptAt(o *Obligation, extra []Term, at *ssa.BasicBlock) string {
 	var sb strings.Builder
 	sb.WriteString(prelude)
+	for _, d := range c.typeDecls {
+		sb.WriteString(d)
+		sb.WriteString("\n")
+	}
 	for _, d := range c.decls {
 		sb.WriteString(d)
 		sb.WriteString("\n")
@@ -161,7 +169,10 @@ func (c *FnCtx) script(o *Obligation, extra []Term) string {
 		ns = append(ns, "str_empty")
 		sb.WriteString("(assert (distinct " + strings.Join(ns, " ") + "))\n")
 	}
-	for _, a := range c.asserts {
+	for i, a := range c.asserts {
+		if at != nil && !c.relevant(c.assertBlk[i], at) {
+			continue
+		}
 		sb.WriteString("(assert " + a + ")\n")
 	}
 	for _, a := range extra {
@@ -169,6 +180,19 @@ func (c *FnCtx) script(o *Obligation, extra []Term) string {
 	}
 	for _, a := range o.Extra {
 		sb.WriteString("(assert " + a + ")\n")
+	}
+	for _, name := range c.actOrder {
+		on := o.Uses == nil
+		for _, u := range o.Uses {
+			if u == name {
+				on = true
+			}
+		}
+		if on {
+			sb.WriteString("(assert " + c.acts[name] + ")\n")
+		} else {
+			sb.WriteString("(assert (not " + c.acts[name] + "))\n")
+		}
 	}
 	sb.WriteString("; obligation " + o.Name + "\n; clause: " + strings.ReplaceAll(o.Clause, "\n", " ") + "\n")
 	sb.WriteString("(assert " + o.Hyp + ")\n")
@@ -179,6 +203,18 @@ func (c *FnCtx) script(o *Obligation, extra []Term) string {
 	}
 	sb.WriteString("(check-sat)\n(get-model)\n")
 	return sb.String()
+}
+
+type pendingSites struct {
+	o  *Obligation
+	c  *FnCtx
+	en []Term
+}
+
+type siteJob struct {
+	parent *Obligation
+	idx    int
+	j      job
 }
 
 type job struct {
@@ -197,6 +233,9 @@ func dischargeAll(jobs []job, seed int) {
 		go func() {
 			defer wg.Done()
 			for j := range ch {
+				if j.script == "" {
+					continue // decided earlier
+				}
 				v, rs, f := solveRace(j.script, j.o.Name, j.tmo, j.all, seed)
 				j.o.Verdict, j.o.Results, j.o.File = v, rs, f
 				if os.Getenv("GOVC_STATS") != "" {
@@ -359,6 +398,9 @@ func runProperty(prop string, tier string, seed int, only string) (*runResult, e
 			ftmo = sp.timeout
 		}
 		var jobs []job
+		var siteJobs []siteJob
+		var aggJobs []job
+		var pending []pendingSites
 		for ii, inst := range insts {
 			c := newFnCtx(L, U, fn, sp, specs)
 			c.inst = inst
@@ -395,6 +437,9 @@ func runProperty(prop string, tier string, seed int, only string) (*runResult, e
 					fr.Alive++
 				}
 			}
+			for k := range c.trusted {
+				res.trusted[k] = true
+			}
 			for _, o := range c.obls {
 				if inst != nil {
 					// Cnn.func.<label>[@where] -> Cnn.func.<label>.<Kind.slot>[@where]
@@ -406,16 +451,109 @@ func runProperty(prop string, tier string, seed int, only string) (*runResult, e
 					o.Witness = inst.witness
 				}
 				o.Script = c.script(o, en)
-				jobs = append(jobs, job{o: o, script: o.Script, tmo: ftmo, all: tier == "thorough"})
 				res.ctxs[o] = c
 				res.obls = append(res.obls, o)
+				if len(o.Sites) <= 1 && (len(o.Sites) == 0 || o.Sites[0].Block == nil) {
+					jobs = append(jobs, job{o: o, script: o.Script, tmo: ftmo, all: tier == "thorough"})
+					continue
+				}
+				// first attempt: the aggregated query (all sites at once) with a short timeout
+				if !sp.persite {
+					aggJobs = append(aggJobs, job{o: o, script: o.Script, tmo: min(ftmo, 3)})
+				}
+				pending = append(pending, pendingSites{o: o, c: c, en: en})
 			}
-			for k := range c.trusted {
-				res.trusted[k] = true
+			_ = siteJobs
+		}
+		dischargeAll(aggJobs, seed)
+		for _, pd := range pending {
+			o, c, en := pd.o, pd.c, pd.en
+			if ok(o) {
+				jobs = append(jobs, job{o: o}) // already decided
+				continue
+			}
+			{
+				// one query per site, each with only the assumptions that can reach the site
+				for si := range o.Sites {
+					site := &o.Sites[si]
+					so := &Obligation{Name: fmt.Sprintf("%s.site%d", o.Name, si), Hyp: site.Hyp, Goal: site.Goal, Cover: o.Cover, Where: site.Where, Uses: site.Uses, Clause: o.Clause + "  [site " + site.Where + "]"}
+					scr := c.scriptAt(so, en, site.Block)
+					siteJobs = append(siteJobs, siteJob{parent: o, idx: si, j: job{o: so, script: scr, tmo: ftmo, all: tier == "thorough"}})
+				}
 			}
 		}
 		fr.GenSecs = time.Since(start).Seconds()
+		for _, sj := range siteJobs {
+			jobs = append(jobs, sj.j)
+		}
 		dischargeAll(jobs, seed)
+		// fold site verdicts into their obligation
+		folded := map[*Obligation]bool{}
+		for _, sj := range siteJobs {
+			p := sj.parent
+			p.Sites[sj.idx].Verdict = sj.j.o.Verdict
+			p.Sites[sj.idx].Results = sj.j.o.Results
+			p.Sites[sj.idx].File = sj.j.o.File
+			folded[p] = true
+		}
+		for p := range folded {
+			allOk, anyRef := true, false
+			p.Results = nil
+			for _, st := range p.Sites {
+				good := (p.Cover && st.Verdict == "sat") || (!p.Cover && st.Verdict == "unsat")
+				bad := (p.Cover && st.Verdict == "unsat") || (!p.Cover && st.Verdict == "sat")
+				if p.Cover {
+					// a cover holds if SOME site is reachable with the goal
+					if good {
+						anyRef = true
+					}
+				} else {
+					if !good {
+						allOk = false
+					}
+					if bad {
+						anyRef = true
+					}
+				}
+				p.Results = append(p.Results, st.Results...)
+				if p.File == "" || !good {
+					p.File = st.File
+				}
+			}
+			switch {
+			case p.Cover && anyRef:
+				p.Verdict = "sat"
+			case p.Cover:
+				p.Verdict = "unknown"
+			case allOk:
+				p.Verdict = "unsat"
+			case anyRef:
+				p.Verdict = "sat"
+			default:
+				p.Verdict = "unknown"
+			}
+		}
+		var onlyObl []job
+		for _, j := range jobs {
+			isSite := false
+			for _, sj := range siteJobs {
+				if sj.j.o == j.o {
+					isSite = true
+				}
+			}
+			if !isSite {
+				onlyObl = append(onlyObl, j)
+			}
+		}
+		for p := range folded {
+			onlyObl = append(onlyObl, job{o: p})
+		}
+		jobs = onlyObl
+		if os.Getenv("GOVC_SPLIT") != "" {
+			for _, sj := range siteJobs {
+				fmt.Printf("  site %-8s %s  [%s]\n", sj.j.o.Verdict, sj.j.o.Name, sj.j.o.Where)
+			}
+		}
 		for _, j := range jobs {
 			fr.Obligations++
 			if ok(j.o) {
@@ -461,7 +599,18 @@ func readDepsSpec() []specLine {
 // addAxioms adds the assumed facts about dependencies (deps.spec) whose
 // function symbols the function's VCs actually use.
 func (c *FnCtx) addAxioms(specs *SpecSet) {
-	for _, ax := range specs.axioms {
+	all := append([]*lemmaSpec{}, specs.axioms...)
+	// lemmas of the function's own package (proved separately as obligations of their property)
+	nAx := len(all)
+	if c.fn != nil && c.fn.Pkg != nil && c.spec != nil {
+		for _, lm := range specs.lemmas {
+			if lm.pkg == c.fn.Pkg.Pkg.Path() {
+				all = append(all, lm)
+			}
+		}
+	}
+	for ai, ax := range all {
+		isLemma := ai >= nAx
 		before := map[string]bool{}
 		for k := range c.funUsed {
 			before[k] = true
@@ -495,8 +644,14 @@ func (c *FnCtx) addAxioms(specs *SpecSet) {
 			c.rollback(nd, na, before)
 			continue
 		}
-		c.assume(t)
-		c.trusted["assumed (deps.spec) "+ax.name+": "+ax.src] = true
+		if isLemma {
+			// lemmas are activated per obligation (label{...,lemma_name})
+			c.assume(implies(c.act(ax.name), t))
+			c.lemmasUsed = append(c.lemmasUsed, ax.name)
+		} else {
+			c.assume(t)
+			c.trusted["assumed (deps.spec) "+ax.name+": "+ax.src] = true
+		}
 	}
 }
 
